@@ -90,7 +90,7 @@ func certTerm(x *x509.Certificate, idx int) string {
 	}
 	return fmt.Sprintf("(Cert %d %d %d %d %s %s %s %s %s %s %s %d %d %s %d %d %s %s %s %s)",
 		idx, rawIDs.id(x.Raw), nameIDs.id(x.RawSubject), nameIDs.id(x.RawIssuer), serial,
-		cZ(x.NotBefore.UnixNano()), cZ(x.NotAfter.UnixNano()),
+		timeTermNZ(x.NotBefore), timeTermNZ(x.NotAfter),
 		cB(x.BasicConstraintsValid), cB(x.IsCA), cZ(int64(x.MaxPathLen)), cB(x.MaxPathLenZero),
 		int(x.KeyUsage), extCrit(x, oidKU), cInts(ekus), len(x.UnknownExtKeyUsage), extCrit(x, oidEKU),
 		pkTerm(x), cInts(ocsp), cInts(crl), cB(fresh))
